@@ -1,6 +1,7 @@
 package breaker
 
 import (
+	"github.com/gotid/god/lib/collection"
 	"errors"
 	"fmt"
 	"math"
@@ -270,6 +271,18 @@ func (s *brSys) canon() string {
 	}
 	for name := range s.t0 {
 		parts = append(parts, name+"@")
+	}
+	// the real rolling windows as the breakers themselves read them
+	for name, b := range s.b {
+		if cb, ok := b.(*circuitBreaker); ok {
+			if lt, ok := cb.throttle.(loggedThrottle); ok {
+				if gb, ok := lt.internalThrottle.(*googleBreaker); ok {
+					var bs []string
+					gb.stat.Reduce(func(b *collection.Bucket) { bs = append(bs, fmt.Sprintf("%g/%d", b.Sum, b.Count)) })
+					parts = append(parts, fmt.Sprintf("real:%s%v", name, bs))
+				}
+			}
+		}
 	}
 	sort.Strings(parts)
 	return fmt.Sprintf("draw=%g|%s", s.draw, strings.Join(parts, "|"))
